@@ -1,6 +1,6 @@
 #!/bin/bash
 # runs every claimed check (quick tier) on /repo and prints one line per property
-cd /verif
+cd "$(dirname "$0")/../.."
 for p in $(python3 -c "import json; print(' '.join(c['property_id'] for c in json.load(open('MANIFEST.json'))['checks']))"); do
   ./check $p --tier ${1:-quick} 2>&1 | grep -E "VIOLATION|KNOWN|holds|VIOLATED" | tail -3
 done
